@@ -96,10 +96,10 @@ type interpreter struct {
 	symFuncs           map[string]bool        // functions that computed a symbolic value
 	curFrame           *frame
 	curInstr           ssa.Instruction
-	mapOrders          bool                   // draw map iteration orders from symbolic permutations
+	mapOrders          bool // draw map iteration orders from symbolic permutations
 	symKeySeq          int
 	permSeq            int
-	hooks              map[string]value       // per-path harness state (vh)
+	hooks              map[string]value // per-path harness state (vh)
 }
 
 type deferred struct {
